@@ -16,7 +16,7 @@ TRUSTED = [
 ]
 
 
-GO2COQ_SOURCES = ["main.go", "leaf.go", "c15.go", "walker.go"]
+GO2COQ_SOURCES = ["main.go", "leaf.go", "c15.go", "walker.go", "walker_env.go"]
 
 
 def go2coq(c, sub, outname, *args):
